@@ -73,3 +73,33 @@ def replay(path):
     d = json.load(open(path))
     print(json.dumps(d.get('failure') or d.get('broken'), indent=1))
     return 0
+
+
+def deep_chain(exe, which, pid, n=200000, stack_mb=8):
+    """Run `sch-deep which n` in a child of its own with an ordinary stack limit (the other children run with an
+    unlimited stack).  -> (stats entry, [failure])  A dead child is the finding: the traversal recurses once per
+    link of a chain of definitions, and such a chain is ~29 bytes per link when decoded from bytes."""
+    import resource
+    import subprocess
+
+    def lim():
+        resource.setrlimit(resource.RLIMIT_STACK, (stack_mb << 20, stack_mb << 20))
+        resource.setrlimit(resource.RLIMIT_AS, (MEM_LIMIT, MEM_LIMIT))
+    line = case_line('D', 'sch-deep', '-', '-', which, n)
+    try:
+        p = subprocess.run([exe], input=line + '\n', stdout=subprocess.PIPE, stderr=subprocess.PIPE, text=True, env=ENV, preexec_fn=lim, timeout=600)
+        out, rc, err = p.stdout, p.returncode, p.stderr[-300:]
+    except Exception as e:      # the machinery, not the property
+        return {'usable': False, 'why': repr(e)[:200]}, []
+    res = None
+    for l in out.split('\n'):
+        if l.startswith('D\t'):
+            res = l.split('\t', 1)[1]
+    st = {'links': n, 'stack_limit_MiB': stack_mb, 'result': res, 'child_exit': rc}
+    if res is None:
+        return st, [{'class': 'deep-chain-stack-overflow', 'key': 'chain %d' % n,
+                     'what': '%s: %s of a chain of %d Tuple definitions (t0 -> t1 -> ... -> a Primitive; about %d bytes when decoded from bytes) kills the '
+                             'process under a %d MiB stack (exit %s: %s)' % (pid, 'validate()' if which == 'validate' else 'max_serialized_size()', n, 29 * n, stack_mb, rc,
+                                                                             err.replace('\n', ' ').strip()[-160:]),
+                     'links': n, 'replay_cmd': "(ulimit -s %d; printf '%s\\n' | %s)" % (stack_mb * 1024, line.replace('\t', '\\t'), exe)}]
+    return st, []
